@@ -83,6 +83,17 @@ func hashWrites(f *hc.Facts, lean, dir, fn string) {
 	hash := ""
 	var ws []string
 	ok := true
+	// fail closed: the body may consist only of `h := shaN.New()`, `x := getX(mode)`, `_, _ = h.Write(…)`
+	// and `return h.Sum(r)` — an added fast path or branch makes the fact missing
+	for _, st := range fd.Body.List {
+		src := f.Src(st)
+		switch {
+		case src == "h := sha256.New()" || src == "h := sha1.New()" || src == "x := getX(mode)" || src == "return h.Sum(r)":
+		case strings.HasPrefix(src, "_, _ = h.Write("):
+		default:
+			ok = false
+		}
+	}
 	ast.Inspect(fd.Body, func(n ast.Node) bool {
 		ce, isCall := n.(*ast.CallExpr)
 		if !isCall {
@@ -408,6 +419,7 @@ func FactsC06(f *hc.Facts) {
 		f.Missing("keysV1_key_copies", "crypto.KeysV1 not found")
 	}
 	f.Const("bindInnerTypeID", "crypto", "BindAuthKeyInnerTypeID")
+	FactsC06Bind(f)
 	old := f.FuncDecl("crypto", "OldKeys")
 	copies(f, "oldKeys_key_copies", closure(old, "aesKey"), "v", "crypto.OldKeys aesKey closure")
 	copies(f, "oldKeys_iv_copies", closure(old, "aesIV"), "v", "crypto.OldKeys aesIV closure")
